@@ -369,3 +369,33 @@ _ALL = ("Every property additionally runs its main workload on a stock release b
 for _pid, _p in PROPS.items():
     if _pid in _ADDED and _ADDED[_pid] not in _p.get("level_text", ""):
         _p["level_text"] = _p.get("level_text", "") + " " + _ADDED[_pid] + " " + _ALL
+
+# Thorough-tier volumes were scaled up after the texts above were written; the figures are put
+# right here (every pair must match somewhere, so a stale entry fails loudly).
+_FIGURES = [
+    ("then 10^4 (quick) / 6x10^5 (thorough) random trees", "then 10^4 (quick) / 5x10^6 (thorough) random trees"),
+    ("and 6x10^3 / 3x10^5 random trees", "and 6x10^3 / 3x10^6 random trees"),
+    ("then measured over 2 000 (quick) / 200 000 (thorough) calls", "then measured over 2 000 (quick) / 4 000 000 (thorough) calls"),
+    ("200 / 5 000 random adaptor trees, 60 / 2 000 random graphs", "200 / 50 000 random adaptor trees, 60 / 60 000 random graphs"),
+    ("300 / 6 000 runs with per-output ratios", "300 / 2 000 000 runs with per-output ratios"),
+    ("long runs (2e5 / 2e6 outputs) for drift", "long runs (2e5 / 2e7 outputs) for drift"),
+    ("every schedule in {A,B}^12 (quick) / {A,B}^16 (thorough)", "every schedule in {A,B}^12 (quick) / {A,B}^18 (thorough)"),
+    ("random schedules of length 2 000 / 10 000 with capacities to 64", "300 / 1 000 000 random schedules of length 2 000 / 10 000 with capacities to 64"),
+    ("random sequences of 1 000-6 000 operations", "400 / 300 000 random sequences of 1 000-6 000 operations"),
+    ("every sequence of 4 (quick) / 5 (thorough) operations", "every sequence of 4 (quick) / 6 (thorough) operations"),
+    ("random histories with capacities to 40.", "3 000 / 3 000 000 random histories with capacities to 40."),
+    ("3 (quick) / 40 (thorough) random contents per configuration", "3 (quick) / 1 500 (thorough) random contents per configuration"),
+    ("for 3 000 / 60 000 frames, long runs (3e5 / 1e7 frames) for drift", "for 3 000 / 600 000 frames, long runs (3e5 / 5e7 frames) for drift"),
+    ("Every depth 1..=64 (quick) / 1..=96 plus 128, 256, 1000 (thorough)", "Every depth 1..=64 plus 128 (quick) / 1..=160 plus 128, 256, 1000 (thorough)"),
+    ("3 / 30 seeds per depth", "3 / 100 seeds per depth"),
+    ("x six input patterns x 4 / 24 attack/release schedules", "x eight input patterns x 4 / 400 attack/release schedules over 300 / 4 000 frames"),
+    ("for every n in 2..=257 / 2..=4096 in three frame types", "for every n in 2..=257 / 2..=8192 in three frame types"),
+    ("Windower for every (L <= 24 / 40, bin 2..=L+2, hop 1..=L+2)", "Windower for every (L <= 24 / 96, bin 2..=L+2, hop 1..=L+2)"),
+]
+for _a, _b in _FIGURES:
+    _hit = False
+    for _p in PROPS.values():
+        if _a in _p.get("level_text", ""):
+            _p["level_text"] = _p["level_text"].replace(_a, _b)
+            _hit = True
+    assert _hit or any(_b in _p.get("level_text", "") for _p in PROPS.values()), "stale figure: " + _a
